@@ -793,7 +793,11 @@ class Context:
         ctx = self  # Reference for closures
 
         def parse_fn(*args):
-            return json_parse(to_string(args[0] if args else UNDEFINED))
+            return json_parse(
+                to_string(args[0] if args else UNDEFINED),
+                ctx._object_prototype,
+                ctx._array_prototype,
+            )
 
         def call_function(fn, this_value, fn_args):
             vm = ctx._current_vm
